@@ -4,7 +4,8 @@ open Pyemv Pyemv.Gen
 
 theorem sm_format_iso2 (p : StrOrBytes) : Gen.sm.format_iso9564_2_pin_block p = formatIso2PinBlock p := by
   unfold Gen.sm.format_iso9564_2_pin_block formatIso2PinBlock
-  simp only [rep_flatten, bind, Except.bind, pure, Except.pure]
+  try simp only [bind_pure]      -- `do let v ← e; pure v` is `e` (single-exit rewrites)
+  simp only [rep_flatten, bind, Except.bind, pure, Except.pure, except_match_eta]
   repeat (first | rfl | split)
   all_goals first | (simp_all; done) | slice_forms
 
